@@ -5,14 +5,15 @@ from=${1:-1}; to=${2:-10}; tier=${3:-quick}
 export VERIF_ROOT=$(pwd)
 export CARGO_NET_OFFLINE=true
 ids=$(python3 -c "import json;print(' '.join(c['property_id'] for c in json.load(open('MANIFEST.json'))['checks']))")
-( cd /verif/harness && cargo build --offline --profile verif -p codec -p bus >/dev/null 2>&1 )
+( cd /verif/harness && cargo build --offline --profile verif -p codec -p bus -p schema -p api >/dev/null 2>&1 )
 # private copies of the binaries: later rebuilds in /verif must not change what this sweep runs
 mkdir -p bin && cp /verif/target/verif/vcodec /verif/target/verif/vbus bin/ 2>/dev/null
 cp /verif/target/verif/vapi /verif/target/verif/vschema bin/ 2>/dev/null
 for id in $ids; do
   case $id in C01|C07|C08|C13|C14) bin=vcodec;; C02|C03|C04|C05|C09|C10|C11|C12) bin=vbus;; C06|C15|C19) bin=vapi;; *) bin=vschema;; esac
   for s in $(seq $from $to); do
-    out=$(./bin/$bin $id --tier $tier --seed $s 2>&1 | grep -v "^proptest: Aborting"); rc=$?
+    out=$(./bin/$bin $id --tier $tier --seed $s 2>&1); rc=$?
+    out=$(echo "$out" | grep -v "^proptest: Aborting")
     line=$(echo "$out" | grep "tier=" | head -1)
     echo "$id seed=$s rc=$rc $line"
     echo "$out" | grep -E "VIOLATION|violation|unhealthy|harness:" | head -5
